@@ -9,6 +9,8 @@ expressions are evaluated from their AST for k = 1..5.  (R2) the delay the polic
 the scheduled wake-up unchanged and a delayed tick is popped only when due (and every due tick is).
 (R3) the retry number survives the copies the reducer takes of the state on every tick: each explicit
 re-construction of a state record in the state module's copy methods passes every field of the record.
+Also (R1) floor: strategies with a floor and a cap are built by interpreting __init__ and evaluated on a grid including min > max
+(tenacity applies the floor last): no delay below max(0, min); (R2) heap discipline: the wake-up list is changed only through heapq.
 Not decided: scheduling latency.
 """
 
@@ -143,6 +145,9 @@ def run(chk) -> None:
     repo = chk.repo
     from ._engine import engine_view
     chk.extra["helpers_inlined"] = engine_view(repo)
+    # a retry delay is one entry of the wake-up heap: it is released when due only while [0] is the earliest entry
+    from ._engine import heap_discipline
+    heap_discipline(chk, "C06.R2")
     mrp = repo.module(RP)
     Interp.register_module_classes(mrp)
     vals, notes = producer_chain(repo)
@@ -202,6 +207,22 @@ def run(chk) -> None:
         chk.extra.setdefault("index_tables", {})[cname] = table
         chk.ob("C06.R1", f"{cname}: the k-th retry uses index k-1 (first retry = first strategy / initial delay)", not bad, m=mrp, node=call, fn=call, instance="index-base", detail="seq=" + ";".join(fp), reason=bad)
     chk.floor("C06.R1", "strategies with an index-like use of the retry number", indexed, 5)
+    # the documented delay includes the strategy's floor: a retry may not start earlier than max(0, min), also when the floor lies
+    # above the cap (tenacity applies the floor last); evaluated by interpreting __init__ and __call__ on a parameter grid
+    from .c07 import _combinator_hooks, _module_env, floor_cap_grid
+
+    class _TD:
+        pass
+    genv = _module_env(mrp)
+    genv["timedelta"] = _TD
+    exp_like = {c_ for c_, d_ in mrp.classes.items() if any((isinstance(x, ast.Call) and last(call_name(x)) == "_exp_term") or (isinstance(x, ast.BinOp) and isinstance(x.op, ast.Pow)) for x in ast.walk(d_))}
+    fc = floor_cap_grid(mrp, genv, _combinator_hooks(mrp, genv), _TD, floor_wins=exp_like)
+    chk.floor("C06.R1", "wait strategies with a floor and a cap evaluated on the floor/cap grid", len(fc), 2)
+    for cname, (callf, bad_fc, n_fc) in sorted(fc.items()):
+        if "below the documented floor" not in bad_fc and bad_fc:
+            continue        # other bound faults are C07's
+        chk.ob("C06.R1", f"{cname}: no retry is released earlier than the strategy's documented floor max(0, min), whatever the cap", not bad_fc, m=mrp, node=callf, fn=callf,
+               instance=f"floor:{cname}", reason=bad_fc)
 
     # ---------------------------------------------------------------- R2 delay plumbing
     ms, sr = repo.func(f"{CL}:_process_step_result_tick")
@@ -247,8 +268,9 @@ def run(chk) -> None:
         for n in cfp.nodes_of(enclosing_stmt(c)):
             f = facts_at(cfp, n, expand_locals=True)
             # on every path to the pop: the heap is non-empty and not (now < time of its first entry); nothing else decides
-            due = (f"{nowp} < {heap}[0][0]", False) in f
-            nonempty = (heap, True) in f
+            heap_here = {heap, ast.unparse(expand(ast.parse(heap, mode="eval").body, c, depth=2))}      # the heap behind a local alias
+            due = any((f"{nowp} < {h_}[0][0]", False) in f for h_ in heap_here)
+            nonempty = any((h_, True) in f for h_ in heap_here)
             chk.ob("C06.R2", "a scheduled tick is released only when its time has come (scheduled_time <= now)", due and nonempty, m=mr, node=c, fn=pop, instance="pop:only-due",
                    reason=f"facts on the path to the pop: {sorted(f)}")
     for lp in loops:
@@ -260,6 +282,8 @@ def run(chk) -> None:
         exits = [t for t in inside if t.ast is lp or any(isinstance(x, (ast.Break, ast.Return)) for x in ast.walk(t.ast))]
         extra = []
         heap_x = ast.unparse(expand(ast.parse(heap, mode="eval").body, lp, depth=2))  # the heap behind a local alias
+        if heap_x == heap and pops:
+            heap_x = ast.unparse(expand(ast.parse(heap, mode="eval").body, pops[0], depth=2))
         allowed = {h_ for hp in (heap, heap_x) for h_ in (hp, f"{nowp} < {hp}[0][0]")}
         for t in exits:
             raw = [a_ for a_, _p in atoms(t.ast.test, True)]
@@ -275,6 +299,8 @@ def run(chk) -> None:
 
 
 TWINS = [
+    Twin("due wake-up taken with list.pop(0) instead of heapq.heappop", CL_REL, "heapq.heappop(self.scheduled_wakeups)", "self.scheduled_wakeups.pop(0)", "C06.R2"),
+    Twin("benign: heap popped through a local alias", CL_REL, "            _, _, tick = heapq.heappop(self.scheduled_wakeups)\n", "            _heap = self.scheduled_wakeups\n            _, _, tick = heapq.heappop(_heap)\n", None),
     Twin("queue copy drops the retry bookkeeping", "packages/llama-index-workflows/src/workflows/runtime/types/internal_state.py", "            queue=[dataclasses.replace(x) for x in self.queue],", "            queue=[EventAttempt(event=x.event, recovery_counts=dict(x.recovery_counts)) for x in self.queue],", "C06.R3"),
     Twin("in-progress copy forgets attempts", "packages/llama-index-workflows/src/workflows/runtime/types/internal_state.py", "            attempts=self.attempts,\n            first_attempt_at=self.first_attempt_at,\n            last_exception=self.last_exception,", "            first_attempt_at=self.first_attempt_at,\n            last_exception=self.last_exception,", "C06.R3"),
     Twin("benign: queue copy spelled out in full", "packages/llama-index-workflows/src/workflows/runtime/types/internal_state.py", "            queue=[dataclasses.replace(x) for x in self.queue],", "            queue=[EventAttempt(event=x.event, attempts=x.attempts, first_attempt_at=x.first_attempt_at, last_exception=x.last_exception, last_failed_at=x.last_failed_at, recovery_counts=dict(x.recovery_counts)) for x in self.queue],", None),
@@ -286,4 +312,16 @@ TWINS = [
     Twin("pop early", CL_REL, "while self.scheduled_wakeups and self.scheduled_wakeups[0][0] <= now:", "while self.scheduled_wakeups and self.scheduled_wakeups[0][0] <= now + 1:", "C06.R2"),
     Twin("benign: pop condition reversed", CL_REL, "while self.scheduled_wakeups and self.scheduled_wakeups[0][0] <= now:", "while self.scheduled_wakeups and now >= self.scheduled_wakeups[0][0]:", None),
     Twin("benign: at_time commuted", CL_REL, "                self.schedule_tick(event, at_time=now + command.delay)", "                self.schedule_tick(event, at_time=command.delay + now)", None),
+]
+
+_WE_OLD = """        return max(
+            max(0.0, self.min),
+            min(_exp_term(self.multiplier, self.exp_base, attempts), self.max),
+        )
+"""
+TWINS += [
+    Twin("wait_exponential: cap applied last, so a floor above the cap is ignored", "packages/llama-index-workflows/src/workflows/retry_policy.py", _WE_OLD,
+         "        return min(max(_exp_term(self.multiplier, self.exp_base, attempts), max(0.0, self.min)), self.max)\n", "C06.R1"),
+    Twin("benign: wait_exponential clamp written with locals and a conditional", "packages/llama-index-workflows/src/workflows/retry_policy.py", _WE_OLD,
+         "        capped = min(_exp_term(self.multiplier, self.exp_base, attempts), self.max)\n        floor = max(0.0, self.min)\n        return floor if floor > capped else capped\n", None),
 ]
